@@ -228,6 +228,58 @@ theorem chunk_spec (c ap : Content) (h : Spec.wfContent c = true) :
     rw [flat_pieces c h, flatten_strList false _ (flatten_true_ne_nil ap)]
     rfl
 
+theorem pieces_strList (xs : List Str) : Spec.pieces (strList xs) = xs.flatMap Spec.strPieces := by
+  simp only [strList, Spec.pieces]
+  induction xs with
+  | nil => rfl
+  | cons a r ih => simp [Spec.piecesL, Spec.pieces, ih]
+
+theorem wf_strList (xs : List Str) : Spec.wfContent (strList xs) = true := by
+  simp only [strList, Spec.wfContent]
+  induction xs with
+  | nil => rfl
+  | cons a r ih => simp [Spec.wfContentL, Spec.wfContent, ih]
+
+/-- `cond_chunk` = its specification (content never filtered, appendix once) -/
+theorem cond_chunk_spec (p c e ap : Content) (aon : Bool) (h : Spec.wfContent c = true) (he : Spec.wfContent e = true) :
+    (condChunk p c e ap aon).map (·.lines) = Spec.condChunkSpec p c e ap aon := by
+  unfold condChunk Spec.condChunkSpec Spec.emptyContent
+  by_cases hc : (flatten true c).isEmpty = true
+  · simp only [hc, Bool.and_true, if_true, Bool.not_true, Bool.false_eq_true, if_false]
+    cases aon with
+    | true =>
+      simp only [if_true]
+      split
+      · simp [TB.mk', lines_eq_pieces e he]
+      · rfl
+    | false =>
+      simp only [Bool.false_eq_true, if_false]
+      rw [chunk_spec _ _ (by simp [Spec.wfContent, Spec.wfContentL, wf_strList])]
+      unfold Spec.chunkSpec Spec.emptyContent
+      have hfl : flatten true (.list [strList (flatten true p), strList (flatten true e)]) =
+          flatten true p ++ flatten true e := by
+        simp [flatten, flattenList, flatten_strList true _ (flatten_true_ne_nil p),
+          flatten_strList true _ (flatten_true_ne_nil e)]
+      rw [hfl]
+      by_cases hpe : (flatten true p).isEmpty = true ∧ (flatten true e).isEmpty = true
+      · simp [List.isEmpty_iff.mp hpe.1, List.isEmpty_iff.mp hpe.2]
+      · have : (flatten true p ++ flatten true e).isEmpty = false := by
+          cases h1 : flatten true p <;> cases h2 : flatten true e <;> simp_all
+        simp only [this, Bool.false_eq_true, if_false]
+        have h2 : ((flatten true p).isEmpty && (flatten true e).isEmpty) = false := by
+          cases h1 : (flatten true p).isEmpty <;> cases h2 : (flatten true e).isEmpty <;> simp_all
+        simp [h2, Spec.pieces, Spec.piecesL, pieces_strList]
+  · simp only [Bool.not_eq_true] at hc
+    simp only [hc, Bool.and_false, Bool.false_eq_true, if_false, Bool.not_false, if_true]
+    rw [chunk_spec _ _ (by simp [Spec.wfContent, Spec.wfContentL, wf_strList, h])]
+    unfold Spec.chunkSpec Spec.emptyContent
+    have hfl : (flatten true (.list [strList (flatten true p), c])).isEmpty = false := by
+      simp only [flatten, flattenList, List.append_nil]
+      cases hfc : flatten true c with
+      | nil => simp [hfc] at hc
+      | cons a r => simp
+    simp [hfl, Spec.pieces, Spec.piecesL, pieces_strList]
+
 /-- non-vacuity: a concrete nested, well-formed tree with boundaries, blanks and a nested block -/
 example : Spec.wfContent (.list [.str (L "a\r\nb"), .none, .str [], .tb [] [L "x", []]]) = true ∧
     contentLines (.list [.str (L "a\r\nb"), .none, .str [], .tb [] [L "x", []]])
